@@ -86,9 +86,9 @@ def axioms_audit(theorems, imports):
     out = r.stdout + r.stderr
     res = {}
     # "'name' depends on axioms: [a, b]" or "'name' does not depend on any axioms"
-    for m in re.finditer(r"'([^']+)' depends on axioms: \[([^\]]*)\]", out, re.S):
+    for m in re.finditer(r"^'(.+?)' depends on axioms: \[([^\]]*)\]", out, re.S | re.M):
         res[m.group(1)] = [a.strip() for a in m.group(2).replace('\n', ' ').split(',') if a.strip()]
-    for m in re.finditer(r"'([^']+)' does not depend on any axioms", out):
+    for m in re.finditer(r"^'(.+?)' does not depend on any axioms", out, re.M):
         res[m.group(1)] = []
     missing = [t for t in theorems if t not in res]
     return res, missing, out
@@ -150,12 +150,12 @@ def arg_mats(line):
             args.append(('p', t[i + 2:i + 2 + ln]))
             i += 2 + ln
         elif t[i].startswith('@'):
-            args.append(args[int(t[i][1:])])
+            args.append(('@', int(t[i][1:])))
             i += 1
         else:
             args.append(('v', t[i]))
             i += 1
-    return args
+    return [args[a[1]] if a[0] == '@' and a[1] < len(args) else a for a in args]
 
 
 def mask_mat(r, c, words):
@@ -240,6 +240,10 @@ def canon_result(op, line, main):
             if op.startswith('ple'):
                 return 'ok i %d p %d %s' % (r, r, ' '.join(Q[:r])) if r else 'ok i 0 p 0'
             return 'ok i %d' % r
+        if op == 'png_corrupt':
+            # truncated / corrupted files: NULL, a decoded matrix, or termination through libpng's error handler
+            # (abort) are all acceptable; crashes and sanitizer reports are not and keep their own fate word
+            return 'ok' if (t[:1] == ['ok']) else main
         if op in ('solve_left', 'pluq_solve_left'):
             check = arg_mats(line)[3][1]
             return 'ok i %s' % (t[2] if check != '0' else '0')
@@ -257,6 +261,8 @@ def spec_view(op, main):
     t = main.split()
     if op == 'find_pivot' and t[:1] == ['ok'] and len(t) >= 7 and t[2] == '1':
         return 'ok i 1 i %s' % t[6]     # found flag + column (the row is any row holding a one there)
+    if op == 'djb' and t[:1] == ['ok'] and ' p ' in main:
+        return main[:main.index(' p ')]   # the specification fixes the product, not the operation list
     return main
 
 
@@ -299,6 +305,8 @@ def correspond(build, lines, harness_args=(), env=None, canon=None, model_lines=
         iv = im[0] if im else '<no output>'
         mv = mo[0] if mo else '<no output>'
         raw_iv = iv
+        if op == 'png_corrupt' and iv == 'signal-6':
+            iv = 'ok'
         iv = canon_result(op, line, iv)
         ck = hchk.get(cid + '.chk')
         if ck is not None and ck[0].split()[:1] == ['ok'] and any(x == '0' for x in ck[0].split()[2::2]):
